@@ -201,6 +201,7 @@ func main() {
 	big := flag.Int("big", 0, "additional writer cases with one value above 64 KiB")
 	holes := flag.Bool("holes", true, "generate v1 wrappers whose inner offsets have holes")
 	pg := flag.Int("pg", 40, "number of page-buffer operation sequences (pg), followed by 2 concurrent cases (pgc)")
+	bigrd := flag.Int("bigrd", 1, "page-boundary reader suite (rd cases with 64 KiB..200 KB of key+value bytes): 0 none, 1 every size and codec once, 2 full cross product")
 	flag.StringVar(&only, "only", "", "print only the cases of this op (wp, wl, wc, rd, pg, pgc)")
 	flag.Parse()
 	r := rand.New(rand.NewSource(*seed))
@@ -210,4 +211,5 @@ func main() {
 	writerCases(r, *count/2, *big)
 	readerCases(r, *count-*count/2, *holes)
 	pageCases(r, *pg) // after all other cases: their ids do not change
+	bigReaderCases(r, *bigrd)
 }
